@@ -244,6 +244,12 @@ func VerifHarness_C14_float_big() {
 	n := verifConc(ndInt("digits", 16, 19+verifTier()))
 	d := ndBytes("d", n)
 	c14AssumeDigits(d)
+	// the writer on the same ground: whole numbers between 2^63 and 10^19 (concrete: no float theory) come back as
+	// themselves
+	for _, x := range []float64{9223372036854775808, 9.3e18, 9.99e18, 1.2e19} {
+		var g FIXFloat
+		verifAssert(g.Read(FIXFloat(x).Write()) == nil && g.Float64() == x, "float-large-whole-number-write-read-value")
+	}
 	var f FIXFloat
 	err := f.Read(d)
 	verifAssert(err == nil, "float-long-whole-number-accepted")
